@@ -70,11 +70,11 @@ theorem finalize_content_write (fs : FS) (l : List Entry) (h : FinOK fs l) (e : 
     get (finalizeAll fs l) e.dest = some t :=
   finalizeAll_content_w l fs h e he hw t ht
 
-/-- An append-mode destination ends up holding its old contents followed by what was written (empty old
+/-- An append-mode destination (stored mode `a` or `a+`) ends up holding its old contents followed by what was written (empty old
 contents if it did not exist).  Hypothesis: the destination exists already or is not itself the backup name
 of another pending destination. -/
 theorem finalize_content_append (fs : FS) (l : List Entry) (h : FinOK fs l) (e : Entry) (he : e ∈ l)
-    (ha : e.mode = .a) (t : Bytes) (ht : get fs (.tmp e.tmp) = some t)
+    (ha : e.mode.hasA = true) (t : Bytes) (ht : get fs (.tmp e.tmp) = some t)
     (hfree : get fs e.dest ≠ none ∨ ∀ e' ∈ l, ∀ n, e.dest ≠ .bak e'.dest n) :
     get (finalizeAll fs l) e.dest = some ((get fs e.dest).getD [] ++ t) :=
   finalizeAll_content_a l fs h e he ha t ht hfree
@@ -111,7 +111,7 @@ theorem finalize_enough_fuel (fs : FS) (l : List Entry) (h : FinOK fs l) (fuel :
 
 /-! ## clause 3 (continued): exactly what was written for it -/
 
-/-- **Deferred = direct.**  After any history of opens in the modes `r`, `w`, `a`, `w+` on an empty writer, a
+/-- **Deferred = direct.**  After any history of opens in the modes `r`, `w`, `a`, `w+`, `a+` on an empty writer, a
 complete `write()` leaves every non-temporary name `p` — destination or not — with exactly the contents that
 performing the same opens and writes directly with the builtin `open` would have left there (so: what was
 written for it, appended to the old contents in append mode).  Excluded are only the names that are a backup
@@ -145,7 +145,7 @@ theorem finalize_matches_direct (fs0 : FS) (ops : List OpenReq) (h0 : NoTmp fs0)
     · rw [if_pos hw] at tr
       rw [tr, ht]
       exact finalize_content_write _ _ hwf.finOK e he hw t ht
-    · have hw : ¬ e.mode.writeish = true := by rw [ha]; decide
+    · have hw : ¬ e.mode.writeish = true := by simp [Mode.writeish, ha]
       rw [if_neg hw] at tr
       rw [tr, ht, ← hsame]
       exact finalize_content_append _ _ hwf.finOK e he ha t ht (by rw [hsame]; exact hpb)
@@ -268,21 +268,28 @@ example : (cliRun exFs exOps [{ level := 30, type := "general", count := 1 }] []
 example : (cliRun exFs exOps [{ level := 30, type := "general", count := 1 }] [[(none, some 1)]] 30).2 = 0 := by
   decide
 
-/-! ## where the deferred writer differs from writing directly (update modes; reported as findings)
+/-! ## the repaired update-mode behaviour (F-C07-3, F-C07-4), as concrete instances
 
-`a+` is finalised like `w` (the destination is replaced by what was written; the old file goes to the
-backup), and a failed `r+` on a missing file still leaves a pending entry that creates an empty file. -/
+`a+` is finalised by appending; a failed `r+` on a missing file registers nothing and leaves no temporary;
+a truncating reopen of a pending `a+` entry turns it into a `w` entry (replace + backup). -/
 
-theorem aplus_differs_from_direct :
+theorem aplus_appends :
     let st := runOpens (init [(.base "a", ['o','l','d'])]) [(.base "a", .ap, ['x'])]
-    get (finalizeAll st.fs st.pending) (.base "a") = some ['x']
+    get (finalizeAll st.fs st.pending) (.base "a") = some ['o','l','d','x']
+    ∧ get (finalizeAll st.fs st.pending) (.bak (.base "a") 1) = none
     ∧ get (directRun [(.base "a", ['o','l','d'])] [(.base "a", .ap, ['x'])]) (.base "a") = some ['o','l','d','x'] := by
   decide
 
-theorem rplus_missing_creates_empty :
+theorem rplus_missing_queues_nothing :
     (openOp (init []) (.base "a") .rp ['x']).2 = .notFound
-    ∧ get (finalizeAll (openOp (init []) (.base "a") .rp ['x']).1.fs (openOp (init []) (.base "a") .rp ['x']).1.pending)
-        (.base "a") = some [] := by
+    ∧ (openOp (init []) (.base "a") .rp ['x']).1.pending = []
+    ∧ (openOp (init []) (.base "a") .rp ['x']).1.fs = [] := by
+  decide
+
+theorem aplus_then_w_replaces :
+    let st := runOpens (init [(.base "a", ['o','l','d'])]) [(.base "a", .ap, ['x']), (.base "a", .w, ['Y'])]
+    get (finalizeAll st.fs st.pending) (.base "a") = some ['Y']
+    ∧ get (finalizeAll st.fs st.pending) (.bak (.base "a") 1) = some ['o','l','d'] := by
   decide
 
 end C07
